@@ -287,16 +287,11 @@ class SMUserList(UserList, ABC):
         """
 
         if isinstance(i, slice):
-            if i.stop is None:
-                # stop not given
-                end = len(self)
-            elif i.stop < 0:
-                # stop is negative, -
-                end = i.stop + len(self) + 1
-            else:
-                # stop is positive, use it directly
-                end = i.stop
-            return self.__class__([self.data[k] for k in range(i.start or 0, end, i.step or 1)])
+            # list semantics for omitted, negative and out-of-range bounds and steps
+            values = self.data[i]
+            if len(values) == 0:
+                return self.Empty()
+            return self.__class__(values)
         else:
             return self.__class__(self.data[i])
         
